@@ -485,3 +485,40 @@ Proof.
     change (ewheel (s <| elong := adel (elong s) key |>)) with (ewheel s).
     change (tlong (s <| elong := adel (elong s) key |>)) with (tlong s). lia.
 Qed.
+
+(* ---------------------------------------------------------------- the store keeps its domain under the wheel operations *)
+Lemma updl_stored s r f r0 : aget (store (updl s r f)) r0 = None <-> aget (store s) r0 = None.
+Proof.
+  unfold updl. destruct (aget (store s) r) as [l|] eqn:E; [|tauto].
+  rewrite store_setl, aget_aset. destruct (r =? r0) eqn:E2; [|tauto].
+  apply N.eqb_eq in E2; subst. rewrite E. split; discriminate.
+Qed.
+Lemma sim_stored_iff s s' r0 : sim s s' -> (aget (store s') r0 = None <-> aget (store s) r0 = None).
+Proof.
+  intros S. pose proof (sim_l _ _ S r0) as P. unfold orel in P.
+  destruct (aget (store s) r0), (aget (store s') r0); try tauto; split; discriminate.
+Qed.
+Lemma add_expried_stored s k r r0 : aget (store (fst (add_expried s k r))) r0 = None <-> aget (store s) r0 = None.
+Proof.
+  rewrite add_expried_eq.
+  assert (T : forall s0, aget (store (fst (ae_tail s0 k r))) r0 = None <-> aget (store s0) r0 = None).
+  { intros s0. unfold ae_tail. cbv zeta.
+    destruct (negb (l_isaof (getl s0 r)) && negb (l_aoftime (getl s0 r) =? 255) && (Z.of_N (l_aoftime (getl s0 r)) <=? now s0 - l_start (getl s0 r))%Z); [|tauto].
+    assert (R : forall n s1, aget (store (fst (repeat_push_lock_aof n s1 k r))) r0 = None <-> aget (store s1) r0 = None).
+    { induction n as [|n IH]; intros s1; simpl; [tauto|].
+      assert (P1 : aget (store (fst (push_lock_aof s1 k r 0))) r0 = None <-> aget (store s1) r0 = None).
+      { unfold push_lock_aof. destruct (negb (leader s1)); [tauto|].
+        destruct (has (c_flag (l_cmd (getl s1 r))) LOCK_FLAG_FROM_AOF); cbn [fst]; [apply updl_stored|].
+        destruct (aof_lock_data true (m_data (getm s1 k)) (l_data (getl s1 r))) as [[d c'] ld']. cbn [fst].
+        rewrite !updl_stored. unfold updm. destruct (aget (mgrs s1) k); tauto. }
+      destruct (push_lock_aof s1 k r 0) as [s2 e2]. cbn [fst] in P1.
+      specialize (IH s2). destruct (repeat_push_lock_aof n s2 k r) as [s3 e3]. cbn [fst] in *. tauto. }
+    apply R. }
+  rewrite T. unfold ae_place. cbv zeta.
+  set (s1 := updl s r (fun l => l <| l_expried := false |>)).
+  assert (E1 : aget (store s1) r0 = None <-> aget (store s) r0 = None) by apply updl_stored.
+  destruct (QUEUE_MAX_WAIT <? l_ecc (getl s1 r)).
+  - change (store (updl s1 r _ <| elong := _ |>)) with (store (updl s1 r (fun l0 => l0 <| l_eT := if (l_eT (getl s1 r) <? checkE s1)%Z then checkE s1 else l_eT (getl s1 r) |> <| l_long := true |>))).
+    rewrite updl_stored. exact E1.
+  - rewrite updl_stored. exact E1.
+Qed.
